@@ -17,6 +17,7 @@ NK = 9
 SHOULD_RETRY = (4, 5)
 BASE_ONLY = (6, 7, 8)      # kinds derived from BaseException, not from Exception (like SystemExit / KeyboardInterrupt)
 MUST_COMMIT = 100
+ROLLBACK_FAILED = 101
 
 
 def main():
@@ -39,6 +40,7 @@ def main():
         for k in range(NK):
             if type(e) is K[k]: return k
         if isinstance(e, core.TransactionError) and 'manually commit()' in str(e): return MUST_COMMIT
+        if isinstance(e, core.RollbackException): return ROLLBACK_FAILED
         return 'other:%s' % type(e).__name__
 
     class T(db.Entity):
@@ -60,9 +62,14 @@ def main():
         except BaseException:
             LOG.append(['commitfail', n]); raise
         LOG.append(['commit', n])
+    FAIL_RB = [False]
     def rollback_w():
         LOG.append(['rollback', npending()])
         orig_rollback()
+        if FAIL_RB[0]:
+            # fault injection at the boundary of core.rollback(): the session cache is gone (SessionCache.close forgets it before the
+            # provider's rollback is attempted), then the failure surfaces as RollbackException
+            raise core.RollbackException('injected: rollback failed', [(RuntimeError, RuntimeError('injected'), None)])
     core.commit, core.rollback = commit_w, rollback_w
 
     def mk_session(s):
@@ -175,6 +182,23 @@ def main():
                 leaf(i, p, o)
             f = mk_session(case['sess'])(fn)
             results.append(observe(f))
+        elif kind == 'fault':
+            def pred(b):
+                if b == 'yes': return lambda e: True
+                if b == 'no': return lambda e: False
+                k = b[1]
+                def raising(e): raise K[k]('predicate raises kind %d' % k)
+                return raising
+            p, o = case['leaf']
+            sess = orm.db_session(allowed_exceptions=pred(case['allowed']), retry_exceptions=pred(case['retryable']))
+            if case['form'] == 'decor':
+                thunk = sess(lambda: leaf(0, p, o))
+            else:
+                def thunk():
+                    with sess: leaf(0, p, o)
+            FAIL_RB[0] = bool(case['rb_fail'])
+            try: results.append(observe(thunk))
+            finally: FAIL_RB[0] = False
         elif kind == 'prog':
             results.append(observe(lambda: run_prog(case['prog'])))
         elif kind == 'gen':
@@ -195,7 +219,23 @@ def main():
                     elif end == 'stop': return
                     else: raise K[end[1]]('generator raises')
                 while True: yield 0     # more steps than described are never requested
-            g = mk_session(case['sess'])(genfn)
+            class Susp(object):
+                def __await__(self): yield 1
+            async def cofn():
+                # the same steps as an `async def` coroutine: suspension = await of something that yields to the event loop
+                for ops, end in steps:
+                    for op in ops:
+                        if op[0] == 'w':
+                            LOG.append(['run', op[1], npending(), core.local.db_context_counter])
+                            T(marker=op[1], poison=bool(op[2]))
+                        elif op[0] == 'f': core.flush()
+                        elif op[0] == 'q': orm.select(t.id for t in T)[:]
+                        else: core.commit()
+                    if end == 'yield': await Susp()
+                    elif end == 'stop': return
+                    else: raise K[end[1]]('coroutine raises')
+                while True: await Susp()
+            g = mk_session(case['sess'])(cofn if case.get('coro') else genfn)
             state = {}
             def consume():
                 it = g()
@@ -208,7 +248,7 @@ def main():
                         with orm.db_session:
                             orm.select(t.id for t in T)[:]
                         del LOG[keep:]          # the other session's own commit() call is not part of the generator's trace
-                    try: next(it)
+                    try: it.send(None)
                     except StopIteration:
                         state['finished'] = True
                         return
